@@ -36,6 +36,30 @@ ScInit ==
 
 Known(a) == {i \in 1..Len(mem) : mem[i][1] = a}
 
+\* one iteration of the loop on cursor `a` with `e` empty categories seen so far, the header read there being
+\* (ty, ln): the new cursor, count and status
+Step(a, e, ty, ln) ==
+    IF a + 2 >= W
+    THEN status' = "absent" /\ addr' = a /\ empties' = e                  \* checked_add(2) failed
+    ELSE LET a2 == a + 2
+             e2 == IF ln = 0 THEN e + 1 ELSE e
+         IN /\ empties' = e2
+            /\ IF e2 >= 32 THEN status' = "absent" /\ addr' = a
+               ELSE IF ty = "target"
+               THEN \* EepromRange::new(a2, ln): byte positions a2*2 and a2*2 + ln*2 (16 bits before the repair)
+                    /\ addr' = a
+                    /\ IF Checked THEN status' = "found"
+                       ELSE IF a2 * 2 >= W \/ a2 * 2 + ln * 2 >= W
+                       THEN status' = IF Wrapping THEN "found" ELSE "overflow"
+                       ELSE status' = "found"
+               ELSE IF ty = "end" THEN status' = "absent" /\ addr' = a
+               ELSE \* next category: word_addr += len_words
+                    IF a2 + ln >= W
+                    THEN IF Checked THEN status' = "absent" /\ addr' = a
+                         ELSE IF Wrapping THEN addr' = (a2 + ln) % W /\ status' = "walking"
+                         ELSE status' = "overflow" /\ addr' = a
+                    ELSE addr' = a2 + ln /\ status' = "walking"
+
 \* one iteration of the loop: read the header at `addr`
 Visit(ty, ln) ==
     /\ status = "walking" /\ visits < MaxVisits
@@ -43,26 +67,7 @@ Visit(ty, ln) ==
        ELSE /\ mem' = mem
             /\ LET k == CHOOSE i \in Known(addr) : TRUE IN ty = mem[k][2] /\ ln = mem[k][3]
     /\ visits' = visits + 1
-    /\ IF addr + 2 >= W
-       THEN status' = "absent" /\ UNCHANGED <<addr, empties>>            \* checked_add(2) failed
-       ELSE LET a2 == addr + 2
-                e2 == IF ln = 0 THEN empties + 1 ELSE empties
-            IN /\ empties' = e2
-               /\ IF e2 >= 32 THEN status' = "absent" /\ UNCHANGED addr
-                  ELSE IF ty = "target"
-                  THEN \* EepromRange::new(a2, ln): byte positions a2*2 and a2*2 + ln*2 in 16 bits
-                       /\ UNCHANGED addr
-                       /\ IF Checked THEN status' = "found"
-                          ELSE IF a2 * 2 >= W \/ a2 * 2 + ln * 2 >= W
-                          THEN status' = IF Wrapping THEN "found" ELSE "overflow"
-                          ELSE status' = "found"
-                  ELSE IF ty = "end" THEN status' = "absent" /\ UNCHANGED addr
-                  ELSE \* next category: word_addr += len_words
-                       IF a2 + ln >= W
-                       THEN IF Checked THEN status' = "absent" /\ UNCHANGED addr
-                            ELSE IF Wrapping THEN addr' = (a2 + ln) % W /\ UNCHANGED status
-                            ELSE status' = "overflow" /\ UNCHANGED addr
-                       ELSE addr' = a2 + ln /\ UNCHANGED status
+    /\ Step(addr, empties, ty, ln)
 
 ScNext == \E ty \in Types, ln \in Lens : Visit(ty, ln)
 ScSpec == ScInit /\ [][ScNext]_scvars
